@@ -340,8 +340,11 @@ def gen_scenario(rng, thorough):
             text = "M105"
         elif k < 0.85:
             text = rng.choice(["M114", "G4 P10", "M400", "G28 X", "M3 S%d" % rng.randint(100, 1000)])
-        else:
+        elif k < 0.93:
             text = "  G1 Z%d  " % rng.randint(0, 20)      # surrounding blanks are stripped
+        else:
+            # statements as the builder writes them: with a comment, or nothing but a comment -- delivered as they are
+            text = rng.choice(["G1 X%d ; first pass" % rng.randint(0, 50), "; tool change follows", "M117 Pass (1) done", "G0 Z5 (lift) ; clear", "(setup)"])
         pre = []
         for _ in range(rng.choice([0, 0, 1, 2])):
             pre.append((rng.choice([0.0, 0.01, 0.04]), rng.choice(STATUS_LINES)))
